@@ -39,6 +39,16 @@ class C08(Property):
     SHAPE = [(REC, "Record.get_cds_features_within_location"), (REC, "Record._link_cds_to_parent"),
              (REC, "Record.add_cds_feature"), (REC, "Record.add_protocluster"),
              (REC, "Record.add_candidate_cluster"), (REC, "Record.add_subregion"), (REC, "Record.add_region"),
+             (REC, "Record.clear_regions"), (REC, "Record.clear_subregions"),
+             (REC, "Record.clear_candidate_clusters"), (REC, "Record.clear_protoclusters"),
+             (REC, "Record.get_cds_features"), (REC, "Record.get_cds_by_name"),
+             (REC, "Record.get_cds_features_within_regions"),
+             (FEAT + "cdscollection.py", "_CDSCache.features"),
+             (FEAT + "cdscollection.py", "_CDSCache._regen_cache"),
+             (FEAT + "cdscollection.py", "_SectionedCDSCache._regen_cache"),
+             (FEAT + "cdscollection.py", "_SectionedCDSTuple.__new__"),
+             (FEAT + "cdscollection.py", "CDSCollection.cds_children"),
+             (FEAT + "cdscollection.py", "CDSCollection.crosses_origin"),
              (FEAT + "cdscollection.py", "CDSCollection.add_cds"),
              (FEAT + "cdscollection.py", "_CDSCache.add_cds"),
              (FEAT + "cdscollection.py", "_SectionedCDSCache.add_cds"),
@@ -56,16 +66,21 @@ class C08(Property):
             "linear two-part, negative start) x both flags; exhaustive over all layouts of <= 3 genes on a line/ring of "
             "length 4 and <= 2 genes on length 5 (quick) / <= 3 genes on length 6 and <= 4 on length 4 (thorough, deep) "
             "with every query, plus random layouts of up to 12 genes on lengths up "
-            "to 10^6; history: random protocluster/candidate/subregion layouts with create_regions, genes with core "
-            "annotations, two random interleavings of the same calls; non-trivial = a query/area that keeps some gene "
+            "to 10^6, a quarter of them the nested shape (a long gene reaching into the query with shorter genes between its "
+            "start and the query start); history: random protocluster/candidate/subregion layouts with create_regions, genes with core "
+            "annotations, two random interleavings of the same calls; half of the histories are one ordering with clear_regions / "
+            "clear_subregions / clear_candidate_clusters / clear_protoclusters, re-adding of cleared collections, a second "
+            "create_regions, and observing calls in between (get_cds_features, cds_children with its three sections, "
+            "get_cds_by_name, get_cds_features_within_regions) whose returned values are compared and checked against the spec; non-trivial = a query/area that keeps some gene "
             "and rejects another; distinct by canonical input")
     TRUSTED = ["bisect.bisect_left is modelled by its contract (partition point on a sorted list); sortedness of the "
                "gene list is a proved invariant and is re-checked on the implementation's gene order in every case",
                "Biopython CompoundLocation.start/end/parts, location ordering via Feature.__lt__ (shared C04 model)",
                "locations of candidate clusters and regions are taken from the implementation (C05/C06 own them); "
                "create_regions is replayed in the model as one add_region per region it produced",
-               "position/numbering of areas in the record's lists, cds_children insertion order and the "
-               "pre/cross/post-origin sections are not observed",
+               "position/numbering of areas in the record's lists are not observed (get_cds_features_within_regions is "
+               "compared as a set); sections of collections that are or were somebody's child are compared with the model "
+               "but specified only as a cover of the gene list (they depend on the path the gene arrived by)",
                "genes whose origin-spanning location cannot be split (split_origin_bridging_location raises), "
                "duplicate gene names, mixed-strand compounds are not generated"]
 
@@ -215,9 +230,43 @@ class C08(Property):
                 yield {"f": "lookup", "len": n, "circ": circular, "genes": genes,
                        "qs": [{"q": q, "ov": ov} for q, ov in queries]}
 
+    @staticmethod
+    def nested_layout(rng: random.Random, n: int) -> Tuple[List[Dict[str, Any]], List[Dict[str, Any]]]:
+        """a long gene reaching into the query, with shorter genes between its start and the query's start
+           (nested in it / ending before the query / ending exactly at the query's start), and genes behind"""
+        s = rng.randrange(n // 3, 2 * n // 3)
+        e = rng.randrange(s + 1, min(n, s + max(2, n // 4)) + 1)
+        long_start = rng.randrange(0, max(1, s // 2))
+        long_end = rng.choice([s + 1, rng.randrange(s + 1, n + 1), e, n])
+        locs = [simple(long_start, long_end, rng.choice([1, -1]))]
+        for _ in range(rng.choice([1, 1, 2, 3, 5])):
+            a = rng.randrange(long_start, s)
+            b = rng.choice([s, s - 1, rng.randrange(a + 1, s + 1)])
+            if b > a:
+                locs.append(simple(a, b, rng.choice([1, -1])))
+        if rng.random() < 0.5:       # a second, even longer gene around everything
+            locs.append(simple(max(0, long_start - 1), n, 1))
+        for _ in range(rng.choice([0, 1, 2])):
+            a = rng.randrange(s, n)
+            locs.append(simple(a, rng.randrange(a + 1, n + 1), rng.choice([1, -1])))
+        genes, seen = [], set()
+        for loc in locs:
+            if loc_key(loc) not in seen:
+                seen.add(loc_key(loc))
+                genes.append({"id": len(genes), "loc": loc})
+        qs = [{"q": simple(s, e, 1), "ov": True}, {"q": simple(s, e, 1), "ov": False},
+              {"q": simple(s, min(n, e + 1), None), "ov": True}]
+        return genes, qs
+
     def random_lookup(self, rng: random.Random) -> Dict[str, Any]:
         n = rng.choice([6, 8, 10, 12, 20, 30, 30, 60, 100, 1000, 10**6])
         circular = rng.random() < 0.5
+        if n >= 12 and rng.random() < 0.25:
+            genes, qs = self.nested_layout(rng, n)
+            rng.shuffle(genes)
+            for i, g in enumerate(genes):
+                g["id"] = i
+            return {"f": "lookup", "len": n, "circ": circular, "genes": genes, "qs": qs}
         k = rng.choice([1, 2, 3, 4, 5, 6, 8, 12])
         genes = self.rand_layout(rng, n, circular, k)
         rng.shuffle(genes)
@@ -278,8 +327,78 @@ class C08(Property):
             ops.append(["cds", dup["id"]])
             ops2.append(["cds", dup["id"]])
             genes.append(dup)
-        return {"f": "history", "len": n, "circ": circular, "genes": genes, "protos": protos, "subs": subs,
+        case = {"f": "history", "len": n, "circ": circular, "genes": genes, "protos": protos, "subs": subs,
                 "cands": cands, "ops": ops, "ops2": ops2}
+        if rng.random() < 0.5:
+            case["ops"] = case["ops2"] = self.with_clears(rng, case)
+        return case
+
+    @staticmethod
+    def with_clears(rng: random.Random, case: Dict[str, Any]) -> List[List[Any]]:
+        """one ordering with clear_* calls, re-adding of cleared collections, a second create_regions and
+           observing calls in between (get_cds_features, cds_children incl. sections, get_cds_by_name,
+           get_cds_features_within_regions)"""
+        base = [o for o in case["ops"]]
+        area_ids = {"protos": [p["id"] for p in case["protos"]], "subs": [s["id"] for s in case["subs"]],
+                    "cands": [c["id"] for c in case["cands"]]}
+        all_ids = area_ids["protos"] + area_ids["subs"] + area_ids["cands"]
+        out: List[List[Any]] = []
+        regions_alive = False
+        registered = {"protos": set(), "subs": set(), "cands": set()}
+        kind_of = {i: k for k, ids in area_ids.items() for i in ids}
+        pending = list(base)
+        gene_ids = [g["id"] for g in case["genes"]]
+
+        def observe() -> None:
+            r = rng.random()
+            if r < 0.2:
+                out.append(["peek_cds"])
+            elif r < 0.55 and all_ids:
+                out.append(["peek", rng.choice(all_ids)])
+            elif r < 0.75:
+                out.append(["peek_region", rng.randrange(0, 4)])
+            elif r < 0.9 and gene_ids:
+                added = [o[1] for o in out if o[0] == "cds"]
+                if added and rng.random() < 0.97:
+                    out.append(["name", rng.choice(added)])
+                elif rng.random() < 0.1:
+                    out.append(["name", 99])           # KeyError ends the history
+            else:
+                out.append(["within_regions"])
+        while pending:
+            op = pending.pop(0)
+            if op[0] == "regions":
+                if regions_alive or not (registered["subs"] or registered["cands"]):
+                    continue
+                regions_alive = True
+            elif op[0] == "area":
+                registered[kind_of[op[1]]].add(op[1])
+            out.append(op)
+            for _ in range(rng.choice([0, 0, 1, 1, 2])):
+                observe()
+            if rng.random() < 0.22:
+                what = rng.choice(["regions", "subs", "cands", "protos", "regions"])
+                out.append(["clear", what])
+                if what == "regions":
+                    regions_alive = False
+                else:
+                    cleared = list(registered[what])
+                    registered[what].clear()
+                    if what == "protos":
+                        cleared += list(registered["cands"])
+                        registered["cands"].clear()
+                    if regions_alive and not (registered["subs"] or registered["cands"]):
+                        regions_alive = False
+                    # some of the cleared collections come back later
+                    for i in cleared:
+                        if rng.random() < 0.6:
+                            pending.insert(rng.randrange(0, len(pending) + 1), ["area", i])
+                if rng.random() < 0.6:
+                    pending.insert(rng.randrange(0, len(pending) + 1), ["regions"])
+                observe()
+        for _ in range(rng.choice([1, 2, 3])):
+            observe()
+        return out
 
     @staticmethod
     def core_inside(rng: random.Random, loc: Dict[str, Any], n: int) -> Dict[str, Any]:
@@ -382,49 +501,105 @@ class C08(Property):
         ids_of = {id(obj): i for i, obj in objs.items()}
         regions: List[Dict[str, Any]] = []
         model_ops: List[List[Any]] = []
+        log: List[List[List[int]]] = []
+        generation = [0]
+
+        def gid(cds: Any) -> int:
+            return int(cds.get_name()[1:])
+
+        def new_regions(known: set) -> List[Dict[str, Any]]:
+            """descriptors (with fresh ids) for the Region objects the record holds that were not seen before"""
+            fresh = [r for r in rec.get_regions() if id(r) not in known]
+            out = []
+            keyed = sorted(fresh, key=lambda r: sorted(ids_of[id(k)] for k in list(r.subregions) + list(r.candidate_clusters)))
+            for rank, region in enumerate(keyed):
+                kids = sorted(ids_of[id(k)] for k in list(region.subregions) + list(region.candidate_clusters))
+                rid = 400 + 20 * generation[0] + rank
+                d = {"id": rid, "kind": "region", "loc": common.location_json(region.location),
+                     "kids": [descr[k] for k in kids]}
+                objs[rid] = region
+                descr[rid] = d
+                ids_of[id(region)] = rid
+                regions.append(d)
+                out.append(d)
+            if fresh:
+                generation[0] += 1
+            # the order add_region was called in (the record keeps its own order)
+            return out
+
         for step, op in enumerate(ops):
             try:
-                if op[0] == "cds":
+                kind = op[0]
+                if kind == "cds":
                     cds = self.make_cds(genes[op[1]])
                     model_ops.append(["cds", genes[op[1]]])
                     rec.add_cds_feature(cds)
                     cdses[op[1]] = cds
-                elif op[0] == "area":
+                elif kind == "area":
                     obj = objs[op[1]]
                     model_ops.append(["area", descr[op[1]]])
                     {"proto": rec.add_protocluster, "sub": rec.add_subregion,
                      "cand": rec.add_candidate_cluster}[descr[op[1]]["kind"]](obj)
-                else:
+                elif kind == "regions":
+                    known = {id(r) for r in rec.get_regions()}
                     try:
                         rec.create_regions()
                     except Exception as exc:  # pylint: disable=broad-except
                         return {"skip": f"create_regions: {err_kind(exc)} {str(exc)[:100]}"}
-                    for region in rec.get_regions():
-                        kids = [ids_of[id(k)] for k in list(region.subregions) + list(region.candidate_clusters)]
-                        kids = sorted(kids)
-                        rid = 400 + min(kids)
-                        d = {"id": rid, "kind": "region", "loc": common.location_json(region.location),
-                             "kids": [descr[k] for k in kids]}
-                        objs[rid] = region
-                        descr[rid] = d
-                        regions.append(d)
+                    for d in new_regions(known):
                         model_ops.append(["area", d])
+                elif kind == "clear":
+                    known = {id(r) for r in rec.get_regions()}
+                    try:
+                        {"regions": rec.clear_regions, "subs": rec.clear_subregions,
+                         "cands": rec.clear_candidate_clusters, "protos": rec.clear_protoclusters}[op[1]]()
+                    except Exception as exc:  # pylint: disable=broad-except
+                        return {"skip": f"clear_{op[1]}: {err_kind(exc)} {str(exc)[:100]}"}
+                    if op[1] == "regions":
+                        model_ops.append(["clear_regions"])
+                    else:
+                        model_ops.append(["clear_" + op[1], new_regions(known)])
+                elif kind == "peek_cds":
+                    model_ops.append(["peek_cds"])
+                    log.append([[gid(c) for c in rec.get_cds_features()]])
+                elif kind in ("peek", "peek_region"):
+                    if kind == "peek_region":
+                        live = rec.get_regions()
+                        if not live:
+                            continue
+                        aid = ids_of[id(live[op[1] % len(live)])]
+                    else:
+                        aid = op[1]
+                    model_ops.append(["peek", aid])
+                    ch = objs[aid].cds_children
+                    log.append([[gid(c) for c in ch], [gid(c) for c in ch.pre_origin],
+                                [gid(c) for c in ch.cross_origin], [gid(c) for c in ch.post_origin]])
+                elif kind == "name":
+                    model_ops.append(["name", op[1]])
+                    cds = rec.get_cds_by_name(f"g{op[1]}")
+                    log.append([[gid(cds), int(cds.location.start), int(cds.location.end)]])
+                elif kind == "within_regions":
+                    model_ops.append(["within_regions"])
+                    log.append([sorted(gid(c) for c in rec.get_cds_features_within_regions())])
+                else:
+                    raise ValueError(kind)
             except Exception as exc:  # pylint: disable=broad-except
                 return {"err": err_kind(exc), "at": step, "msg": str(exc)[:200], "model_ops": model_ops,
-                        "regions": regions}
-        name_id = {c.get_name(): i for i, c in cdses.items()}
-        children = [[i, sorted(name_id[c.get_name()] for c in objs[i].cds_children)] for i in sorted(objs)]
+                        "regions": regions, "log": log, "areas": [descr[i] for i in sorted(descr)]}
+        children = [[i, sorted(gid(c) for c in objs[i].cds_children)] for i in sorted(objs)]
+        sections = []
+        for i in sorted(objs):
+            ch = objs[i].cds_children
+            sections.append([i, [sorted(gid(c) for c in sec) for sec in (ch.pre_origin, ch.cross_origin, ch.post_origin)]])
         region_of = []
-        region_ids = {id(objs[r["id"]]): r["id"] for r in regions}
         for op in ops:
             if op[0] == "cds":
                 reg = cdses[op[1]].region
-                region_of.append([op[1], None if reg is None else region_ids.get(id(reg), -1)])
-        defs = [[p["id"], sorted(name_id[c.get_name()] for c in objs[p["id"]].definition_cdses)]
-                for p in case["protos"]]
-        return {"order": [name_id[c.get_name()] for c in rec.get_cds_features()],
-                "children": children, "region": sorted(region_of), "defs": defs,
-                "regions": regions, "model_ops": model_ops,
+                region_of.append([op[1], None if reg is None else ids_of.get(id(reg), -1)])
+        defs = [[p["id"], sorted(gid(c) for c in objs[p["id"]].definition_cdses)] for p in case["protos"]]
+        return {"order": [gid(c) for c in rec.get_cds_features()],
+                "children": children, "sections": sections, "region": sorted(region_of), "defs": defs,
+                "regions": regions, "model_ops": model_ops, "log": log,
                 "areas": [descr[i] for i in sorted(descr)]}
 
     def run_history(self, case: Dict[str, Any]) -> Dict[str, Any]:
@@ -434,7 +609,7 @@ class C08(Property):
             first = self.execute(case, case["ops"])
             if "skip" in first:
                 return first
-            second = self.execute(case, case["ops2"])
+            second = first if case["ops2"] == case["ops"] else self.execute(case, case["ops2"])
         finally:
             logging.disable(logging.NOTSET)
         return {"first": first, "second": second}
@@ -447,13 +622,16 @@ class C08(Property):
         if "skip" in obs or "skip" in obs.get("second", {}):
             return None
         return {"f": "history", "len": case["len"], "ops": obs["first"]["model_ops"],
-                "ops2": obs["second"]["model_ops"], "areas": obs["first"].get("areas", [])}
+                "ops2": obs["second"]["model_ops"], "areas": obs["first"].get("areas", []),
+                "impl_log": obs["first"].get("log", [])}
 
     @staticmethod
     def canon_obs(o: Dict[str, Any], with_order: bool) -> Dict[str, Any]:
-        out = {"children": sorted(o["children"]), "region": sorted(o["region"]), "defs": sorted(o["defs"])}
+        out = {"children": sorted(o["children"]), "region": sorted(o["region"]), "defs": sorted(o["defs"]),
+               "sections": sorted(o["sections"])}
         if with_order:
             out["order"] = o["order"]
+            out["log"] = o["log"]
         return out
 
     def judge(self, case: Dict[str, Any], obs: Dict[str, Any], drv: Optional[Dict[str, Any]]) -> Judgement:
@@ -511,7 +689,7 @@ class C08(Property):
             if not ok:
                 corr = False
                 details.append(f"{name} ordering: model {m} vs implementation "
-                               f"{ {k: v for k, v in o.items() if k not in ('model_ops', 'regions', 'areas')} }")
+                               f"{ {k: v for k, v in o.items() if k not in ('model_ops', 'regions', 'areas')} }"[:900])
         spec_ok = True
         nontrivial = False
         if scope and "err" not in first and "err" not in second:
@@ -519,12 +697,25 @@ class C08(Property):
             got = self.canon_obs(first, False)
             want_region = sorted([g, (r[0] if len(r) == 1 else (None if not r else ["ambiguous"] + r))]
                                  for g, r in spec["region"])
-            want = {"children": sorted(spec["children"]), "region": want_region, "defs": sorted(spec["defs"])}
-            if got != want:
+            if got["region"] != want_region:
                 spec_ok = False
-                for k in ("children", "region", "defs"):
-                    if got[k] != want[k]:
-                        details.append(f"spec fails on {k}: expected {want[k]} got {got[k]}")
+                details.append(f"spec fails on region: expected {want_region} got {got['region']}")
+            for k in ("children", "defs", "sections"):
+                have = dict((i, v) for i, v in got[k])
+                for i, v in spec[k]:
+                    if v is not None and have.get(i) != v:      # null: the spec does not determine it (not alive)
+                        spec_ok = False
+                        details.append(f"spec fails on {k} of {i}: expected {v} got {have.get(i)}")
+            bad = [i for i, ok in enumerate(drv.get("log_ok", [])) if not ok]
+            if bad or len(drv.get("log_ok", [])) != len(first["log"]):
+                spec_ok = False
+                peeks = [o for o in first["model_ops"] if o[0] in ("peek_cds", "peek", "name", "within_regions")]
+                details.append(f"observation {bad[:1]} fails its spec: call {peeks[bad[0]] if bad else '?'} returned "
+                               f"{first['log'][bad[0]] if bad else first['log']}")
+            if first["log"]:
+                tags.append("with-observations")
+            if any(o[0] == "clear" for o in case["ops"]):
+                tags.append("with-clear")
             if self.canon_obs(second, False) != got:
                 spec_ok = False
                 details.append(f"build order changes the result: {got} vs {self.canon_obs(second, False)}")
